@@ -1,4 +1,4 @@
-add("C11", "checks/c11_c12_status.c", ["default-asan", "noinfo-plain", "c89-plain", "custreg-plain", "custreg89-plain", "custreg34-plain", "heap-plain"], ["default-asan", "default-plain", "noinfo-plain", "noinfo-asan", "c89-plain", "custreg-plain", "custreg-asan", "custreg89-plain", "custreg34-plain", "heap-plain"],
+add("C11", "checks/c11_c12_status.c", ["default-asan", "noinfo-plain", "c89-plain", "custreg-plain", "custreg89-plain", "custreg34-plain", "custchain-plain", "heap-plain"], ["default-asan", "default-plain", "noinfo-plain", "noinfo-asan", "c89-plain", "custreg-plain", "custreg-asan", "custreg89-plain", "custreg34-plain", "custchain-plain", "heap-plain"],
     "cases = single operations executed on the real library, each followed by SCPI_RegGet of all ten registers + SCPI_ErrorCount and "
     "an evaluation of the five clauses of the statement (evaluations = transitions). Phase bfs: breadth-first search from a fresh "
     "context over every state reachable with a bounded operation alphabet (a slice: SCPI_RegSet/SetBits/ClearBits with every subset "
